@@ -226,3 +226,12 @@ Example time_walks :
   /\ walk_backward edge (tsrv Bidirectional) 1 5 None = Done tconn
   /\ walk_backward edge (tsrv ForwardOnly) 3 5 None = ServerError.
 Proof. vm_compute. repeat split; reflexivity. Qed.
+
+(** TimeBasedConnection's collection of getter answers: direct, promise, direct — nothing is lost;
+    a failing promise is the error *)
+Example time_collect_ex :
+  time_resolve_edges Z [Ok (Sync [1; 2]); Ok (Promise (Ok [3])); Ok (Sync [4])] = Ok (Promise (Ok [1; 2; 4; 3]))
+  /\ time_resolve_edges Z [Ok (Sync [1]); Ok (Sync [])] = Ok (Sync [1])
+  /\ time_resolve_edges Z [Ok (Sync [1]); Ok (Promise (Err EApp)); Ok (Promise (Ok [2]))] = Ok (Promise (Err EApp))
+  /\ time_resolve_edges Z [Ok (Promise (Ok [2])); Err EApp] = Err EApp.
+Proof. vm_compute. repeat split; reflexivity. Qed.
